@@ -56,6 +56,8 @@ func tokenText(toks []string, i int, firstName int) string {
 		return fmt.Sprintf(pickv([]string{`"s%d"`, `'s%d'`}, i), i)
 	case "escstr":
 		return `"\q"`
+	case "dqstr":
+		return pickv([]string{`"a""b"`, `'it''s'`, `""""`}, i)
 	case "badstr":
 		return `"abc`
 	case "int":
